@@ -103,6 +103,7 @@ impl Topic {
             })?;
         }
         Ok(Some(DeletedPartitions {
+            partitions_count: count,
             segments_count,
             messages_count,
         }))
@@ -110,6 +111,7 @@ impl Topic {
 }
 
 pub struct DeletedPartitions {
+    pub partitions_count: u32,
     pub segments_count: u32,
     pub messages_count: u64,
 }
